@@ -120,12 +120,14 @@ NUMBER_POOL = ["0", "-1", "1", "2", "1e308", "-1e308", "1e-320", "nan", "inf", "
                "-2147483649", "18446744073709551616", "65536", "1e", "0x10", "1000000", "0.5", "1.e-30",
                "99999999999999999999999999", "-"]
 
-N_OPS = 12
+N_OPS = 14  # 12 and 13: the "cut a statement after its k-th token" variant of op 4
 
 
 def mutate_once(s, op, a, b, c, keywords, donor):
     """one edit; returns the new text (or the same text when the edit is not applicable)"""
     op %= N_OPS
+    if op >= 12:
+        op, c = 4, 1
     if op <= 2:
         st = statements(s)
         if len(st) < 2:
